@@ -51,12 +51,25 @@ class Builder:
         self.i += 1
         return e["i"]
 
-    def nm(self, prefix):
+    SCOPED = {"p": ["a", "b", "d", "q", "y", "data", "clk"], "n": ["data", "d", "n", "q", "bus", "clk", "y"],
+              "u": ["u", "inst", "g", "b"]}
+
+    def nm(self, prefix, scope=None):
         self.uid += 1
         if self.c["unnamed"] and self.r.random() < self.c["unnamed"]:
             return None
         style = self.c.get("name_style", "unique")
-        if style == "unique":
+        if style == "scoped" and scope is not None and prefix in self.SCOPED:
+            # the way real designs are named: the same few port, net and instance names in every cell,
+            # unique only among their siblings (a net may carry the name of a port)
+            used = self.__dict__.setdefault("scoped_used", {}).setdefault((scope, prefix), set())
+            for k in range(50):
+                nm = self.r.choice(self.SCOPED[prefix]) + ("" if k < 2 and self.r.random() < 0.6 else str(self.r.randint(0, 3 + k)))
+                if nm not in used:
+                    used.add(nm)
+                    return nm
+            return "%s%d" % (prefix, self.uid)
+        if style in ("unique", "scoped"):
             return "%s%d" % (prefix, self.uid)
         pool = self.c.get("name_pool")
         nm = "%s%s" % (self.r.choice(pool), self.uid if self.r.random() < 0.5 else "")
@@ -107,7 +120,7 @@ class Builder:
         for _ in range(n):
             wdt = self.width()
             arr = wdt > 1 or self.r.random() < self.c["array_rate"]
-            e = {"op": "create_port", "on": d, "name": self.nm("p"), "pins": wdt, "props": self.pp(),
+            e = {"op": "create_port", "on": d, "name": self.nm("p", d), "pins": wdt, "props": self.pp(),
                  "direction": self.r.choice(["in", "out", "inout", "in", "out"])}
             if arr:
                 e["is_scalar"] = False
@@ -173,6 +186,15 @@ class Builder:
             rec2 = {"h": "e%d.0" % i, "level": c["depth"], "ports": [], "leaf": False, "libh": ulib}
             self.body(rec2)
             self.extra_defs = [rec2]
+        if c.get("late_pins"):
+            # widen an earlier port of a definition that already has instances: the instances then hold their
+            # outer pins in an order that is not the declaration order of the ports
+            for rec3 in self.defs:
+                if len(rec3["ports"]) >= 2 and rec3["h"] != d and r.random() < c["late_pins"]:
+                    ph, pins = r.choice(rec3["ports"][:-1])
+                    for _ in range(r.choice([1, 1, 2])):
+                        k = self.emit({"op": "create_pin", "on": ph})
+                        pins.append("e%d.0" % k)
         i = self.emit({"op": "set_top", "on": self.netlist, "x": d})
         self.top = "e%d.0" % i
         if c.get("top_name", True):
@@ -224,7 +246,7 @@ class Builder:
                             pr["original_identifier"] = "p[%d]" % pk
                         plist.append(pr)
                     props["EDIF.properties"] = plist
-                i = self.emit({"op": "create_child", "on": d, "name": self.nm("u"), "ref": t["h"], "props": props})
+                i = self.emit({"op": "create_child", "on": d, "name": self.nm("u", d), "ref": t["h"], "props": props})
                 kids.append(("e%d.0" % i, t))
         # free endpoints of this definition
         free = []
@@ -240,7 +262,7 @@ class Builder:
         wires = []
         for _ in range(ncab):
             wdt = self.width()
-            e = {"op": "create_cable", "on": d, "name": self.nm("n"), "wires": wdt, "props": self.pp()}
+            e = {"op": "create_cable", "on": d, "name": self.nm("n", d), "wires": wdt, "props": self.pp()}
             if wdt > 1 or r.random() < c["array_rate"]:
                 e["is_scalar"] = False
                 if c["lsb"]:
